@@ -10,6 +10,7 @@ import (
 
 	lua "github.com/yuin/gopher-lua"
 
+	"verif/e1"
 	"verif/vf"
 )
 
@@ -58,4 +59,60 @@ func TestOverflowPosition(t *testing.T) {
 		}
 	}
 	chkOverflowPos.SetExhaustive(true)
+}
+
+// The line of an error injected at an instruction boundary (cancellation): while a loop is running it is a line of that
+// loop or of the function the loop calls - never of the statements in front of the loop.
+
+type InjectLineCase struct {
+	Poll int64  `json:"poll"`
+	Loop string `json:"loop"`
+}
+
+var injectLoops = map[string]struct {
+	src string
+	ok  map[int]bool
+}{
+	"calling": {"local n = 0\nlocal function f(x)\n  return x + 1\nend\n\nwhile true do\n  n = f(n)\n  n = n - 1\nend\n", map[int]bool{3: true, 6: true, 7: true, 8: true, 9: true}},
+	"empty":   {"local n = 0\nn = n + 1\n\nwhile true do\nend\n", map[int]bool{4: true, 5: true}},
+	"repeat":  {"local n = 0\nn = n + 1\n\nrepeat\n  n = n + 1\nuntil false\n", map[int]bool{4: true, 5: true, 6: true}},
+	"goto":    {"local n = 0\nn = n + 1\n\n::top::\nn = n + 1\ngoto top\n", map[int]bool{4: true, 5: true, 6: true}},
+}
+
+var chkInjectLine = vf.Register("line_of_an_injected_error", func(k *vf.C, c *InjectLineCase) error {
+	lp := injectLoops[c.Loop]
+	ctx := e1.NewOneShotCtx(c.Poll)
+	g := e1.RunGopher(lp.src, &e1.GOpts{Ctx: ctx})
+	if g.Panic != "" {
+		return fmt.Errorf("loop %q, error injected at dispatch %d: a Go panic escaped: %s", c.Loop, c.Poll, g.Panic)
+	}
+	if !g.Failed || !ctx.Fired {
+		return fmt.Errorf("loop %q, error injected at dispatch %d: the chunk did not fail", c.Loop, c.Poll)
+	}
+	var line int
+	if _, err := fmt.Sscanf(g.ErrText, "<string>:%d:", &line); err != nil || !lp.ok[line] {
+		return fmt.Errorf("loop %q, error injected at dispatch %d (the loop has been running for a while): reported as %q", c.Loop, c.Poll, firstLineOf(g.ErrText))
+	}
+	k.Class("loop:" + c.Loop)
+	k.Nontrivial(vf.Hash(fmt.Sprint(*c)))
+	if c.Poll == 20 {
+		k.Sample(c.Loop, 1, map[string]any{"case": c, "src": lp.src, "error": firstLineOf(g.ErrText)})
+	}
+	return nil
+})
+
+func firstLineOf(s string) string {
+	if i := strings.IndexByte(s, '\n'); i >= 0 {
+		return s[:i]
+	}
+	return s
+}
+
+func TestInjectedErrorLine(t *testing.T) {
+	for name := range injectLoops {
+		for p := int64(13); p <= 160; p++ {
+			chkInjectLine.Run(t, &InjectLineCase{Poll: p, Loop: name})
+		}
+	}
+	chkInjectLine.SetExhaustive(true)
 }
